@@ -11,8 +11,27 @@ import common as C
 
 AREA = "parse"
 VO_MODEL = ["gen/ParseTables.vo", "parse/Lex.vo", "parse/Prim.vo", "parse/Ymd.vo", "parse/Parse.vo",
-            "parse/Build.vo", "parse/ParseSpec.vo"]
+            "parse/Build.vo", "parse/ParseSpec.vo", "parse/ParseSpec2.vo", "parse/FuzzyThm.vo"]
 E_LEX, E_PARSE, E_RES = 0, 1, 2
+E_STRICT_CLASH = 22
+
+_MATCH_ORACLE = []
+
+
+def matcher_oracle():
+    """one oracle process shared by the known-finding matchers (they evaluate theorem guards on the model)"""
+    if not _MATCH_ORACLE:
+        _MATCH_ORACLE.append(C.Oracle(AREA))
+    return _MATCH_ORACLE[0]
+
+
+def model_raw(o, s):
+    return matcher_oracle().call(*enc_call(o, s))
+
+
+def model_strict_clash(o, s):
+    r = matcher_oracle().call(E_STRICT_CLASH, enc_opts(o) + [ord(c) for c in s])
+    return r == [1]
 
 EXN_NAMES = {1: "IndexError", 2: "ValueError", 3: "OverflowError", 4: "AssertionError", 5: "TypeError",
              6: "UnboundLocalError", 7: "OutOfFuel", 8: "ValueError"}
